@@ -55,6 +55,8 @@
 //     assumption that callers never pass nil is stated where it is used).
 //   - the zero value of a slice (a named result) is the empty list;
 //     newDeviceDataError(err, typ), like fmt.Errorf, makes a non-nil error;
+//   - a slice expression xs[lo:hi] on a list is take/drop; bounds outside
+//     0 ≤ lo ≤ hi ≤ len(xs) make the result `none` (capacity is not modelled);
 //   - `defer func() { err = errors.Annotate(err, …) }()` is dropped: it changes
 //     the text of a non-nil error only (nil stays nil);
 //   - a pointer to an abstract (library) struct has no value in Lean: `p == nil`
@@ -610,6 +612,30 @@ func (c *fctx) expr(e ast.Expr) ex {
 				xs = append(xs, c.exprAs(el, sl.Elem()))
 			}
 			return c.bindN(xs, func(s []string) string { return "[" + strings.Join(s, ", ") + "]" })
+		}
+	}
+	if sx, ok := e.(*ast.SliceExpr); ok && !sx.Slice3 {
+		if _, isSl := c.typeOf(sx.X).Underlying().(*types.Slice); isSl && c.t.leanType(c.typeOf(sx.X)) != "" {
+			// xs[lo:hi] on a list; bounds outside 0 ≤ lo ≤ hi ≤ len => panic (capacity is not modelled)
+			c.partial = true
+			parts := []ex{c.expr(sx.X), {code: "(0 : Int)"}}
+			if sx.Low != nil {
+				parts[1] = c.expr(sx.Low)
+			}
+			if sx.High != nil {
+				parts = append(parts, c.expr(sx.High))
+			}
+			r := c.bindN(parts, func(s []string) string {
+				hi := "(" + s[0] + ".length : Int)"
+				if len(s) == 3 {
+					hi = s[2]
+				}
+				return fmt.Sprintf("(if 0 ≤ %s ∧ %s ≤ %s ∧ %s ≤ (%s.length : Int) then some ((%s.take (%s).toNat).drop (%s).toNat) else none)", s[1], s[1], hi, hi, s[0], s[0], hi, s[1])
+			})
+			if r.partial {
+				return ex{code: "(Option.join " + r.code + ")", partial: true}
+			}
+			return ex{code: r.code, partial: true}
 		}
 	}
 	if ix, ok := e.(*ast.IndexExpr); ok {
